@@ -24,7 +24,7 @@ AT_AXIS = [("TRAVEL", "O2"), ("TRAVEL", "I1"), ("XONLY", "I1"), ("YONLY", "I1"),
            ("ZMOVE", 2), ("ZMOVE", 1), ("RETRACT",), ("RECOVER",), ("TRACKPROBE",)] + AT
 ARC_ADD = [("TRAVEL", "O1"), ("TRAVEL", "O2"), ("TRAVEL", "O3"), ("TRAVEL", "I1"), ("PRINT", "I2"), ("PRINT", "O2"),
            ("ARC", "clear"), ("ARC", "cross"), ("ARC", "under"), ("ARC", "into"), ("ARC", "into", "EZ"),
-           ("ARC", "under", "E"), ("ADD", "R2", "r2"),
+           ("ARC", "under", "E"), ("CIRCLE", 5, 0), ("TRAVEL", "N"), ("ADD", "R2", "r2"),
            ("ADD", "R3", "r3"), ("ZMOVE", 2), ("ZMOVE", 1), ("RAW", "M117 hi"), ("RAW", "M999")]
 MODES = [("TRAVEL", "O2"), ("TRAVEL", "I1"), ("TRAVEL", "O1"), ("PRINT", "I2"), ("PRINT", "O2"), ("TRAVEL", "H"),
          ("RETRACT",), ("RECOVER",), ("REL",), ("ABS",), ("INCH",), ("MM",), ("ZMOVE", 2), ("XONLY", "I1"),
@@ -45,6 +45,11 @@ def scenarios(tier):
         Scenario("c01-arc-add", World, dict(base, regions=["Rrev", "D"], enter="M117 in\n", exit="M400\n"), ARC_ADD,
                  max_states=cap, note="arcs clear of / crossing / ending in a region, regions added while printing "
                                       "(up to four at once), reversed rectangle corners, enter script"),
+        Scenario("c01-region-update", World, dict(base, regions=["R"]),
+                 [("TRAVEL", "N"), ("TRAVEL", "Q"), ("TRAVEL", "O2"), ("TRAVEL", "I1"), ("PRINT", "H"), ("ZMOVE", 2),
+                  ("XONLY", "I1"), ("API", "upd", "r", "rBig", False), ("API", "upd", "r", "cBig", False)],
+                 max_states=cap, note="a region is enlarged (update accepted while printing) after points that it now "
+                                      "covers have been visited"),
         Scenario("c01-modes", World, dict(base, regions=["R"], emax=1), MODES, max_depth=5 if q else 8,
                  max_states=cap, note="relative positioning and inch units: depth-bounded (rounding makes states "
                                       "path-dependent)"),
